@@ -47,6 +47,35 @@ META = {
 }
 
 
+def overrides_are_delegations(ctx, r, cls_info, names, why: str) -> int:
+    """PyYAML methods that the resolver/composer model relies on may be overridden inside yatiml only by pure delegation
+    (every return is `super().<name>(<the parameters, unchanged>)`): anything else is reported"""
+    P = ctx.P
+    n = 0
+    for k in P.mro(cls_info):
+        if not k.module.name.startswith('yatiml'):
+            break
+        for name in names:
+            if name not in k.methods:
+                continue
+            n += 1
+            fi = k.methods[name]
+            params = fi.params[1:]
+            want = 'super().%s(%s)' % (name, ', '.join(params))
+            rets = [x for x in ast.walk(fi.node) if isinstance(x, ast.Return)]
+            pure = bool(rets) and all(x.value is not None and _strip_cast(x.value) == want for x in rets) \
+                and not any(isinstance(x, (ast.Assign, ast.AugAssign, ast.Try)) for x in ast.walk(fi.node))
+            r.check(pure, '%s.%s only delegates to PyYAML' % (k.name, name), '%s:overrides:%s' % (k.key, name), fi.loc(),
+                    '%s overrides PyYAML\'s %s with its own logic: %s' % (k.key, name, why))
+    return n
+
+
+def _strip_cast(e: ast.AST) -> str:
+    while isinstance(e, ast.Call) and isinstance(e.func, ast.Name) and e.func.id == 'cast' and len(e.args) == 2:
+        e = e.args[1]
+    return ast.unparse(e)
+
+
 def o3_resolve_vs_construct(ctx, rid='C09.O3', M=None):
     """whatever resolves to bool/float is in the domain of the PyYAML constructor that then runs"""
     M = M or resolver_model(ctx.P)
@@ -91,14 +120,14 @@ def run(ctx):
 
     r = ctx.rule('C09.model', 'the loader resolves with PyYAML\'s resolve/constructors (nothing overridden) and '
                               'its __init__ applies the resolver patches', floor=2)
-    for k in P.mro(loader):
-        if not k.module.name.startswith('yatiml'):
-            break
-        for name in ('resolve', 'construct_yaml_bool', 'construct_yaml_float', 'construct_scalar',
-                     'construct_object', 'construct_document'):
-            if name in k.methods:
-                raise AnalysisError('%s overrides %s: the resolver model does not cover this' % (k.key, name))
-    r.ok('no yatiml class in Loader\'s MRO overrides resolve/construct_yaml_bool/construct_yaml_float')
+    n_over = overrides_are_delegations(ctx, r, loader, ('resolve', 'construct_yaml_bool', 'construct_yaml_float', 'construct_yaml_int',
+                                                           'construct_yaml_timestamp', 'construct_scalar', 'construct_object',
+                                                           'construct_document', 'check_resolver_prefix'),
+                                       'typing of plain scalars is no longer PyYAML\'s resolve over the patched table / construction is no '
+                                       'longer PyYAML\'s constructor for the resolved tag (e.g. a result cache keyed on the text alone '
+                                       'forgets whether the scalar was quoted)')
+    if n_over == 0:
+        r.ok('no yatiml class in Loader\'s MRO overrides resolve/construct_yaml_bool/construct_yaml_float')
     r.check(len(M.load_steps) >= 1 and M.T_load != M.pristine,
             'Loader.__init__ transforms the table through %s' % M.load_steps,
             'yatiml.loader:Loader.__init__:resolver-patch', loc,
